@@ -26,26 +26,33 @@ for cfg in "cha:-graph cha" "386:-goarch 386" "int:-tags int"; do
   [ $first = 1 ] || echo ',' >> "$S/extra.json"; first=0
   printf ' "config_%s": {"flags": "%s", "exit": %d, "summary": "%s"}' "$name" "$flags" "$code" "$summary" >> "$S/extra.json"
 done
-# self-validation against frozen mutants
+# self-validation against frozen mutants (must fire), benign rewrites and the
+# behaviour-preserving refactorings written by independent agents for this
+# property (must stay silent); run in parallel, each in its own scratch copy
 mut_total=0; mut_ok=0; mut_list=""
+: > "$S/sv.args"
 if [ -d "mutants/$ID" ]; then
-  for f in mutants/$ID/*.patch; do
-    [ -e "$f" ] || continue
-    out=$(VERIF_REPO="$REPO" tools/mutant.sh "$f" fire "$ID" 2>&1); code=$?
-    mut_total=$((mut_total+1)); [ $code -eq 0 ] && mut_ok=$((mut_ok+1))
-    st=fired; [ $code -eq 3 ] && st=skipped; [ $code -eq 1 ] && st=MISSED
-    mut_list="$mut_list\"$(basename $f): $st\","
-    [ $code -eq 1 ] && echo "self-validation: mutant $f NOT detected"
-  done
-  for f in mutants/$ID/benign/*.patch; do
-    [ -e "$f" ] || continue
-    out=$(VERIF_REPO="$REPO" tools/mutant.sh "$f" silent "$ID" 2>&1); code=$?
-    mut_total=$((mut_total+1)); [ $code -eq 0 ] && mut_ok=$((mut_ok+1))
-    st=silent; [ $code -eq 3 ] && st=skipped; [ $code -eq 1 ] && st=FALSE-ALARM
-    mut_list="$mut_list\"benign/$(basename $f): $st\","
-    [ $code -eq 1 ] && echo "self-validation: benign variant $f raised an alarm"
-  done
+  for f in mutants/$ID/*.patch; do [ -e "$f" ] && echo "$f fire" >> "$S/sv.args"; done
+  for f in mutants/$ID/benign/*.patch; do [ -e "$f" ] && echo "$f silent" >> "$S/sv.args"; done
 fi
+for f in benign-refactors/$ID/R*/patch.diff; do [ -e "$f" ] && echo "$f silent" >> "$S/sv.args"; done
+if [ -s "$S/sv.args" ]; then
+  VERIF_REPO="$REPO" xargs -a "$S/sv.args" -P "${SV_JOBS:-8}" -L 1 sh -c 'id="$1"; f="$2"; mode="$3"; tools/mutant.sh "$f" "$mode" "$id" >/dev/null 2>&1; echo "$f $mode $?"' sh_ "$ID" 2>/dev/null > "$S/sv.out" || true
+fi
+[ -e "$S/sv.out" ] || : > "$S/sv.out"
+while read f mode code; do
+  [ -n "$f" ] || continue
+  mut_total=$((mut_total+1)); [ "$code" -eq 0 ] && mut_ok=$((mut_ok+1))
+  label=$(echo "$f" | sed "s#^mutants/$ID/##; s#^benign-refactors/$ID/#refactor-#; s#/patch.diff##")
+  if [ "$mode" = fire ]; then
+    st=fired; [ "$code" -eq 3 ] && st=skipped; [ "$code" -eq 1 ] && st=MISSED
+    [ "$code" -eq 1 ] && echo "self-validation: mutant $f NOT detected"
+  else
+    st=silent; [ "$code" -eq 3 ] && st=skipped; [ "$code" -eq 1 ] && st=FALSE-ALARM
+    [ "$code" -eq 1 ] && echo "self-validation: behaviour-preserving variant $f raised an alarm"
+  fi
+  mut_list="$mut_list\"$label: $st\","
+done < "$S/sv.out"
 printf ',\n "self_validation": {"variants": %d, "as_expected": %d, "results": [%s]}' "$mut_total" "$mut_ok" "${mut_list%,}" >> "$S/extra.json"
 # cross-reference (recorded only)
 vet=$(cd "$REPO" && go vet ./... 2>&1 | grep -v '^#' | wc -l)
